@@ -229,7 +229,7 @@ def parse_result(txt, rmap):
 
 def forget_stage(ctx, model, impl, rmap, broken, only_case=None):
     rng = ctx.rng
-    ncases = 10000 if ctx.thorough() else 1000
+    ncases = 7000 if ctx.thorough() else 1000
     maxn = 60 if ctx.thorough() else 40
     if broken: ncases *= 3
     cases = []
@@ -482,7 +482,7 @@ def run(ctx):
     cov["calendar_exhaustive_days_1900_2400"] = bool(ctx.thorough())
     stage_t["calendar"] = round(_t.time() - _t0, 1); _t0 = _t.time()
     # 5. correspondence
-    ncases = 20000 if ctx.thorough() else 2500
+    ncases = 12000 if ctx.thorough() else 2500
     maxn = 60 if ctx.thorough() else 40
     if not r["ok"]:
         ncases *= 4        # an obligation is broken: widen the search for a concrete failing input
